@@ -1,6 +1,7 @@
 (* C10 — haplotag conserves every alignment and tags it with the best-agreeing haplotype.
    Only the property theorems (each closed by `exact`), their assumption printouts and non-vacuity
-   examples.  Model: WH.Model.Haplotag (run_current = /repo's code, run_fixed = repaired region rule).
+   examples.  Model: WH.Model.Haplotag (run_fixed / list_fixed = /repo after the repair of finding F8;
+   run_current / list_current = the code before the repair, kept for the _refuted theorems).
 
    Vocabulary (definitions in model/Haplotag.v unless noted):
      score_spec inf g ps h   summed quality of the alleles of the reads g that agree with haplotype h
@@ -170,7 +171,7 @@ Theorem C10_stream_conserved_no_regions : forall (cfg : config) (chroms : list c
 Proof. exact stream_none_current. Qed.
 Print Assumptions C10_stream_conserved_no_regions.
 
-(* current code with --regions: conservation holds when the chromosomes are named in ascending (BAM)
+(* code before the repair, with --regions: conservation holds only when the chromosomes are named in ascending (BAM)
    order and the regions of each chromosome are `benign` (HaplotagStream): sorted, pairwise disjoint
    and no alignment overlaps two of them *)
 Theorem C10_stream_conserved_disjoint_regions : forall (cfg : config) (chroms : list chrom)
@@ -185,8 +186,9 @@ Theorem C10_stream_conserved_disjoint_regions : forall (cfg : config) (chroms : 
 Proof. exact stream_current_benign. Qed.
 Print Assumptions C10_stream_conserved_disjoint_regions.
 
-(* The unrestricted statement for the code as it is: for coordinate-sorted input and any valid regions
-   the output is the input restricted to the regions. *)
+(* The unrestricted statement for the code before the repair: for coordinate-sorted input and any valid
+   regions the output is the input restricted to the regions.  (DESIGN claimed it for pairwise disjoint
+   regions; that is not enough: see witness (b).) *)
 Definition C10_stream_conserved_full_statement : Prop :=
   forall cfg chroms user tail out,
     (forall c, In c chroms -> alns_ok (c_alns c) /\ sorted_start (c_alns c)) ->
@@ -257,7 +259,7 @@ Print Assumptions C10_repaired_regions_write_each_alignment_once.
 
 (* ---- 4. --output-haplotag-list ---------------------------------------------------------------- *)
 
-(* current code: an untagged record can be listed with a phase set (of an unrelated read cloud) *)
+(* code before the repair: an untagged record can be listed with a phase set (of an unrelated read cloud) *)
 Theorem C10_list_agrees_with_tags_refuted :
   exists cfg samples a ps,
     snd (out_rec cfg (prepare cfg samples) a) = no_tags /\
